@@ -754,6 +754,7 @@ func TestC23(t *testing.T) {
 					}
 				}
 				n.Commit(n.EndBlock())
+				historicalAppLookup(rt, c, n)
 			}
 		})
 }
